@@ -88,7 +88,17 @@ where
                 None => Err(OperationError::BacklinkMissing),
             }
         } else {
-            Ok(())
+            // A prune point does not need its predecessor to be known, but it can never re-enter
+            // a log at or below the latest entry we already have (pruned prefixes stay pruned).
+            match past_header {
+                Some(past_header) if header.seq_num <= past_header.seq_num => {
+                    Err(OperationError::SeqNumNonIncremental(
+                        past_header.seq_num.saturating_add(1),
+                        header.seq_num,
+                    ))
+                }
+                _ => Ok(()),
+            }
         }
     } else {
         // Operation is at the beginning of log but we've already progressed and assume a strictly
